@@ -6,6 +6,7 @@ package main
 
 import (
 	"fmt"
+	"os"
 	"path/filepath"
 	"time"
 
@@ -19,7 +20,7 @@ func main() {
 	runner.Main(runner.Config{
 		ID:    "C19",
 		Level: "model_checking",
-		Rule: "bounded exhaustive enumeration, free-running goroutines: (roundtrip) 12 catalogue trees (nested/empty dirs, empty files, relative/dangling/absolute symlinks, 60 small files flat and nested, 300KiB file first, block-boundary sizes) + all 180 trees over {a,b in absent/empty file/file/dir/symlink/dangling symlink} x {d in absent/empty dir/dir+file/dir+dir/dir+symlink} x producers {archiver.CompressZip, containerarchiver.CompressZip, archiver.CompressTar} x workers {1,2,3,4,8,16,-1} x ResumeFrom {unset,set}: extract into an empty dir, independent Lstat tree comparison, ExtractResult == entries per kind, extract again over the result; (resume-sequential) 1 worker, crash image (directory copy + resume file) taken after every entry and at every seam event (every archive ReadAt, extract/ln message, OnEntryDone: includes partially written files), ExtractZip re-run on the image with the same resume file; (resume-out-of-order) W in {2,3} workers, W-1 chosen entries held at their header read while one worker extracts the rest, crash image when a later entry completes, re-run on the image; (resume-after-error) header read of entry k fails, ExtractZip re-run with the same ResumeFrom. Non-trivial = tree with >=2 entries incl. a non-empty file (roundtrip); restart that both skips and extracts entries or meets a partial file (resume).",
+		Rule:  "bounded exhaustive enumeration, free-running goroutines: (roundtrip) 12 catalogue trees (nested/empty dirs, empty files, relative/dangling/absolute symlinks, 60 small files flat and nested, 300KiB file first, block-boundary sizes) + all 180 trees over {a,b in absent/empty file/file/dir/symlink/dangling symlink} x {d in absent/empty dir/dir+file/dir+dir/dir+symlink} x producers {archiver.CompressZip, containerarchiver.CompressZip, archiver.CompressTar} x workers {1,2,3,4,8,16,-1} x ResumeFrom {unset,set}: extract into an empty dir, independent Lstat tree comparison, ExtractResult == entries per kind, extract again over the result; (resume-sequential) 1 worker, crash image (directory copy + resume file) taken after every entry and at every seam event (every archive ReadAt, extract/ln message, OnEntryDone: includes partially written files), ExtractZip re-run on the image with the same resume file; (resume-out-of-order) W in {2,3} workers, W-1 chosen entries held at their header read while one worker extracts the rest, crash image when a later entry completes, re-run on the image; (resume-after-error) header read of entry k fails, ExtractZip re-run with the same ResumeFrom. Non-trivial = tree with >=2 entries incl. a non-empty file (roundtrip); restart that both skips and extracts entries or meets a partial file (resume).",
 		Assumptions: []string{
 			"goroutines of ExtractZip run free (Go scheduler) except where a seam callback blocks them; the schedule dimension proper is the E2 part of C19",
 			"a crash is modelled as: directory and resume file exactly as they are at a seam while every worker is blocked in a harness callback; directory entries have no seam, their after-entry state is rebuilt with the real archiver.Mkdir and cross-checked at the next seam",
@@ -44,13 +45,14 @@ func record(o Out, r *runner.Rec) {
 }
 
 func body(w *runner.W) {
-	env := NewEnv(filepath.Join(w.Scratch(), "c19"), w.Seed)
+	// the pid keeps a worker restarted after a crash away from the leftovers of its predecessor
+	env := NewEnv(filepath.Join(w.Scratch(), fmt.Sprintf("c19-%d", os.Getpid())), w.Seed)
 	cat := Catalogue()
 	shapes := Shapes()
 	zipProducers := []string{"zip", "czip"}
 
 	// ---------------- round trip ----------------
-	rt := runner.NewSub(w, "roundtrip", func(c RTCase, r *runner.Rec) { record(RoundTrip(env, c), r) })
+	rt := runner.NewSub(w, "roundtrip", func(c RTCase, r *runner.Rec) { record(RoundTrip(env, c), r) }, runner.Journal())
 	if rt.Active() {
 		for _, t := range cat {
 			for _, p := range zipProducers {
@@ -63,15 +65,10 @@ func body(w *runner.W) {
 			rt.Do(RTCase{Tree: t.Name, Build: t.Build, Producer: "tar"})
 		}
 		for si, t := range shapes {
-			for pi, p := range zipProducers {
+			for _, p := range zipProducers {
 				for wi, wk := range workerCounts {
-					if w.Quick() && (si+pi+wi)%3 != 0 {
-						continue
-					}
 					rt.Do(RTCase{Tree: t.Name, Build: t.Build, Producer: p, Workers: wk, Resume: (si+wi)%2 == 0})
-					if !w.Quick() {
-						rt.Do(RTCase{Tree: t.Name, Build: t.Build, Producer: p, Workers: wk, Resume: (si+wi)%2 != 0})
-					}
+					rt.Do(RTCase{Tree: t.Name, Build: t.Build, Producer: p, Workers: wk, Resume: (si+wi)%2 != 0})
 				}
 			}
 			rt.Do(RTCase{Tree: t.Name, Build: t.Build, Producer: "tar"})
@@ -102,16 +99,13 @@ func body(w *runner.W) {
 	}
 
 	// ---------------- sequential crash + resume ----------------
-	rs := runner.NewSub(w, "resume-sequential", func(c ResumeCase, r *runner.Rec) { record(ResumeSequential(env, c), r) })
+	rs := runner.NewSub(w, "resume-sequential", func(c ResumeCase, r *runner.Rec) { record(ResumeSequential(env, c), r) }, runner.Journal())
 	if rs.Active() {
 		maxEv := 0
-		for ti, t := range rtrees {
-			for pi, p := range zipProducers {
+		for _, t := range rtrees {
+			for _, p := range zipProducers {
 				if w.Expired() {
 					break
-				}
-				if w.Quick() && len(t.Build) >= 40 && pi != ti%2 {
-					continue // quick: the two 60-file trees with one producer each
 				}
 				ev, n, err := CountEvents(env, t.Build, p)
 				if err != nil {
@@ -140,7 +134,7 @@ func body(w *runner.W) {
 	}
 
 	// ---------------- out-of-order finish + crash + resume ----------------
-	oo := runner.NewSub(w, "resume-out-of-order", func(c OOOCase, r *runner.Rec) { record(ResumeOutOfOrder(env, c), r) })
+	oo := runner.NewSub(w, "resume-out-of-order", func(c OOOCase, r *runner.Rec) { record(ResumeOutOfOrder(env, c), r) }, runner.Journal())
 	if oo.Active() {
 		for ti, t := range rtrees {
 			if w.Expired() {
@@ -170,9 +164,6 @@ func body(w *runner.W) {
 				for a := 0; a < len(nd); a++ {
 					for b := a + 1; b < len(nd); b++ {
 						for c := b + 1; c < len(nd); c++ {
-							if w.Quick() && (a+b+c)%3 != 0 {
-								continue
-							}
 							oo.Do(OOOCase{Tree: t.Name, Build: t.Build, Producer: p, Held: []int{nd[a], nd[b]}, After: nd[c], RestartWorkers: restarts[(a+c)%len(restarts)]})
 						}
 					}
@@ -183,7 +174,7 @@ func body(w *runner.W) {
 	}
 
 	// ---------------- interruption by a read error ----------------
-	ae := runner.NewSub(w, "resume-after-error", func(c ErrCase, r *runner.Rec) { record(ResumeAfterError(env, c), r) })
+	ae := runner.NewSub(w, "resume-after-error", func(c ErrCase, r *runner.Rec) { record(ResumeAfterError(env, c), r) }, runner.Journal())
 	if ae.Active() {
 		for _, t := range rtrees {
 			for _, p := range zipProducers {
